@@ -163,8 +163,9 @@ Dec(req, r) ==
                       THEN (IF n < 3 THEN "no" ELSE IF (n - 3) % 4 = 0 THEN "yes" ELSE "unsure")
                  ELSE IF sf \in DtcSingleTypes
                       THEN (IF n < 3 THEN "no" ELSE IF n \in {3, 7} THEN "yes" ELSE "unsure")
-                 ELSE IF sf = 6
-                      THEN (IF n < 6 THEN "no" ELSE IF n = 7 THEN "unsure" ELSE "yes")
+                 ELSE IF sf = 6          \* 59 06 DTC(3) status [recordNumber data+]*
+                      THEN (IF n < 6 THEN "no" ELSE IF n = 6 THEN "yes"
+                            ELSE IF n >= 8 /\ r[7] \in 1..239 THEN "yes" ELSE "unsure")
                  ELSE "unsure"
     [] s = 47 -> IF n < 3 THEN "no" ELSE IF n = 3 THEN "unsure" ELSE "yes"
     [] s = 49 -> IF n < 4 THEN "no" ELSE IF sf \in {1, 2, 3} THEN "yes" ELSE "unsure"
